@@ -109,6 +109,25 @@ def gen_expr(rng, big=False):
     return rng.choice([",", ",", " "]).join(words), hosts
 
 
+GAP_NUMBERS = [0, 1, 5, 9, 2147483646, 2147483647, 2147483648, 2147483653, 4294967294, 4294967296, 4294967301]
+
+
+def gen_gap(rng):
+    """same-prefix bracketed ranges whose low bounds lie 2^31 / 2^32 apart (hostrange_cmp returns the difference of
+    two unsigned longs as int), then uniq (sometimes sort)"""
+    pre = rng.choice(["x", "n0", "gap"])
+    words, hosts = [], []
+    for _ in range(rng.choice([2, 2, 3, 4])):
+        lo = rng.choice(GAP_NUMBERS) + rng.choice([0, 0, 1, 2])
+        hi = lo + rng.choice([0, 0, 1, 3, 5])
+        p = pre if rng.random() < 0.85 else rng.choice(["x", "y"])
+        words.append("%s[%d-%d]" % (p, lo, hi) if hi > lo or rng.random() < 0.5 else "%s[%d]" % (p, lo))
+        hosts += ["%s%d" % (p, v) for v in range(lo, hi + 1)]
+    ops = ["new"] + ["push " + w for w in words] if rng.random() < 0.3 else ["new", "push " + ",".join(words)]
+    op = "uniq" if rng.random() < 0.85 else "sort"
+    return ops + ["hosts 100000", op, "hosts 100000", "count"]
+
+
 def variant(rng, name):
     """a name that is NOT in the list but differs from one only in zero padding / one character"""
     m = re.fullmatch(r"(.*?)(\d+)", name)
@@ -152,6 +171,8 @@ def gen_history(rng, nops, profile):
     """profile: which risky combinations the history may contain (keeps findings attributable)"""
     if profile in ("own", "pop", "delete") and rng.random() < 0.5:
         return gen_template(rng)
+    if profile == "gap":
+        return gen_gap(rng)
     g = Guide()
     ops = ["new"]
     e, hs = gen_expr(rng, big=(profile == "big"))
@@ -356,6 +377,25 @@ def big_suffix(name):
     return bool(m) and int(m.group(1)) > (1 << 25)
 
 
+def cmp_gap(names):
+    """two names with the same text in front of the trailing number whose numbers are 2^31 or more apart: the
+    unchanged hostrange_cmp (difference of unsigned longs returned as int) is not an order on such records"""
+    lo, hi = {}, {}
+    for n in names:
+        kk = key(n)
+        if kk:
+            lo[kk[0]] = min(lo.get(kk[0], kk[1]), kk[1])
+            hi[kk[0]] = max(hi.get(kk[0], kk[1]), kk[1])
+    return any(hi[p] - lo[p] >= (1 << 31) for p in lo)
+
+
+def gap_before(ops, ans, k):
+    try:
+        return k > 0 and ops[k - 1].startswith("hosts") and k - 1 < len(ans) and cmp_gap(names_field(ans[k - 1])[2])
+    except Exception:
+        return False
+
+
 def classify(ops, ans, sp, states, k):
     """signature of the first difference between implementation and plain-list spec at op k"""
     w = ops[k].split()
@@ -375,10 +415,11 @@ def classify(ops, ans, sp, states, k):
                 after = names_field(ans[k + 1])[2]
             except Exception:
                 return w[0] + "-inadmissible"
+            gap = ":gap>=2^31" if cmp_gap(before) else ""
             if w[0] == "sort":
-                return "sort-inadmissible:" + ("lost" if any(after.count(x) < before.count(x) for x in before) else "extra")
+                return "sort-inadmissible:" + ("lost" if any(after.count(x) < before.count(x) for x in before) else "extra") + gap
             if set(before) - set(after):
-                return "uniq-lost-a-name"
+                return "uniq-lost-a-name" + gap
             if set(after) - set(before):
                 return "uniq-invented-a-name"
             dups = sorted(set(x for x in after if after.count(x) > 1))
@@ -440,7 +481,7 @@ def run(ctx):
                    "an iterator is live, or a find/delete/uniq on a list with >= 3 hosts; distinct = distinct history text"}
     dist = {"ops": 0, "profiles": {}, "ub-predicted": 0, "crash": 0}
     if hl.build():
-        profiles = ["own", "own", "shift", "pop", "delete", "endpush", "multi", "uniq", "big", "free", "free", "noiter", "noiter"]
+        profiles = ["own", "own", "shift", "pop", "delete", "endpush", "multi", "uniq", "big", "free", "free", "noiter", "noiter", "gap"]
         if ctx.replay:
             seqs = [json.load(open(ctx.replay))["case"]["ops"]]
             profs = ["replay"]
@@ -534,6 +575,11 @@ def judge(ctx, hl, s, ans, crash, m, sp, dist, shrinking=False):
     # --- correspondence: implementation vs model, op by op, up to the first op the model does not cover
     # (hostlist_sort / hostlist_coalesce are exercised against the specification only)
     mstop = next((i for i, a in enumerate(m) if a == "unsupported"), len(m))
+    if not hasattr(hl, "flags_cache"):
+        hl.flags_cache = hl.probed()
+    if not hl.flags_cache.get("FIX_D26_CMPTRUNC", False):
+        # unchanged hostrange_cmp is not an order on such records: which permutation qsort produces is libc's business
+        mstop = min([mstop] + [i for i, o in enumerate(s) if o in ("uniq", "sort") and gap_before(s, ans, i)])
     k = next((i for i in range(min(n, mstop)) if ans[i] != m[i]), None)
     if crash is not None:
         dist["crash"] += 0 if shrinking else 1
@@ -549,6 +595,7 @@ def judge(ctx, hl, s, ans, crash, m, sp, dist, shrinking=False):
             dist["ub-predicted"] += 0 if shrinking else 1
         # --- oracle: a crash is a violation of the property whatever the model says
         sig = "crash:nth:name>78" if n < len(s) and s[n].startswith("nth") else \
+            "crash:uniq:gap>=2^31" if n < len(s) and s[n] == "uniq" and gap_before(s, ans, n) else \
             "crash:%s:%s" % (s[n].split()[0] if n < len(s) else "end",
                                events(s, states, n, int(s[n].split()[1]) if n < len(s) and s[n].startswith("it_") and len(s[n].split()) > 1 else -1, sp))
         if tag:
